@@ -19,10 +19,15 @@ def quoted_after(marker_re):
     if not m:
         return None
     rest = r3[m.end():]
-    q = re.search(r'["“](.+?)["”]\s*(?:\n\s*\n|\n\*\*|\n###|\n##|\Z)', rest, re.S)
-    if not q:
-        return None
-    return re.sub(r'\s*\n\s*', ' ', q.group(1)).strip()
+    first = rest.lstrip()[:1]
+    q = re.search(r'["“](.+?)["”]\s*(?:\n\s*\n|\n\*\*|\n###|\n##|\Z)', rest, re.S) if first in '"“' else None
+    if q:
+        return re.sub(r'\s*\n\s*', ' ', q.group(1)).strip()
+    # unquoted: the paragraph that follows the marker
+    para = re.sub(r'^[\s\*`:—\-]*(?:\(updated\))?[\s\*`:—\-]*', '', rest)
+    para = re.split(r'\n\s*\n|\n\*\*|\n#', para, 1)[0]
+    para = re.sub(r'\s*\n\s*', ' ', para).strip().strip('"“”')
+    return para if len(para) > 80 else None
 
 
 text = quoted_after(r'level_claimed\.text`?\*{0,2}[^\n"“]*?:?\s*')
